@@ -95,6 +95,22 @@ PROPS["C20"] = {
     "explanation": "scatter invariant over cntpos, run-length invariant over rid/rsum/rcnt, written bitmap, frame obligations",
 }
 
+PROPS["C03"] = {
+    "modules": ["contracts.ops_smoothers"],
+    "contracts": ["ghost:contracts/ghost_smooth.py::sum01_is_count", "ghost:contracts/ghost_smooth.py::cntpos_same",
+                  "hdc/algo/ops/ws2dgu.py::ws2dgu", "hdc/algo/ops/ws2dpgu.py::ws2dpgu"],
+    "standin": True,
+    "level": "proof",
+    "trusted": ["z3 5.1 / cvc5 1.0.3", "ws2d through its contract only (C01)", "numpy: array comprehension, element-wise arithmetic, boolean-mask store, np.sum, np.round(half-even, out=) (assumed contracts)",
+                "xarray.apply_ufunc / lmda = 10**sg in the accessor: bounded stand-in"],
+    "not_proved": ["ws2dpgu: the postcondition pins the *last* reweighting step (weights p / 1-p relative to the previous iterate, final curve = solution for these weights, rounding); that the iterate is the one reached after at most 10 passes from the zero curve is checked by the bounded stand-in against an exact rational IRLS",
+                   "float64 vs exact arithmetic (ties excluded as the statement allows)"],
+    "assumptions": ["floats are exact reals (model R)", "input cells hold integers (int16 data cast to float64)", "fitted curve inside int16 (statement's domain restriction)"],
+    "level_text": "ws2dgu / ws2dpgu: for all series (length >= 4), gap patterns, lambda >= 0 and p in (0,1): with >= 2 valid cells the output is the half-even rounding of a curve that satisfies the weighted normal equations (unit weights on valid cells; p / 1-p envelope weights of the last pass for the asymmetric kernel), otherwise (or lambda = 0) the input is returned; solver preconditions (two positive weights) are discharged via ghost counting lemmas; every output cell written",
+    "level_note": "trusted: z3/cvc5; model R; ws2d by contract; IRLS convergence history and accessor only bounded; Numba faithful (C13)",
+    "explanation": "modular use of ws2d's contract; ghost lemmas sum01_is_count / cntpos_same; IRLS loop cut at an invariant",
+}
+
 ALL = ["C%02d" % i for i in range(1, 21)]
 NOT_APPLICABLE = {
     "C13": "statement about Numba's type inference/lowering and the ctypes binding of SciPy kernels (the translator), not about functions of /repo: no contract on hdc-algo source can establish or refute it; it is the stated assumption of every proof here",
